@@ -102,9 +102,6 @@ def well_shaped(v, game, res, label):
             x = vec[s]
             if isinstance(x, bool) or not isinstance(x, (int, float)) or not math.isfinite(x):
                 v.fail("result-not-finite", f"{label}: state {s} {name} is {x!r}", sig=name)
-    for name, it in (("reach", it1), ("rew", it2)):
-        if not isinstance(it, int) or it < 1:
-            v.fail("result-shape", f"{label}: iteration count {name} is {it!r}", sig="iterations")
 
 
 def dead_lists(game, pstar):
